@@ -13,6 +13,7 @@ import os
 import struct
 import subprocess
 import sys
+import time
 import warnings
 
 import numpy as np
@@ -715,4 +716,53 @@ def shared_solver(rng, budget, deep, replay=None):
                                     detail='b.set_new_solver_tolerance(1e-3) changed the Newton tolerance instance a '
                                            'solves with (%r -> %r): `solver` is one class-level object' % (before, after),
                                     case=dict(op='set_new_solver_tolerance')))
+    return res
+
+
+def r2d_direction_continuity(rng, budget, deep, replay=None):
+    """steady 2-D Riemann problem, lineout x = 1: wherever the pressure is continuous along the lineout (fan head, fan
+    interior, fan tail, slip line) the flow DIRECTION atan2(v, u) is continuous too; only a shock turns the flow
+    discontinuously, and there the pressure jumps as well.  Independent of the recorded Prandtl-Meyer defect (the coded
+    turning is used consistently).  Added for seeded C19-10 (degrees added to radians inside a fan attached to an
+    inclined stream: the direction jumps at the fan head and tail)."""
+    from exactpack.solvers.riemann2D_2section_steadystate.ep_riemann2D_2section_steadystate import IGEOS_Solver
+    res = dict(evaluations=0, distinct_nontrivial=0, failures=[], samples=[])
+    t0 = time.time()
+    k = 0
+    with warnings.catch_warnings(), _quiet(), np.errstate(all='ignore'):
+        warnings.simplefilter('ignore')
+        while True:
+            if replay is not None:
+                case = replay.get('case', replay)
+            else:
+                th = rng.choice([0.0, rng.uniform(-15.0, 15.0), rng.uniform(-15.0, 15.0)])
+                hi = [1.0, 1.0, rng.uniform(2.0, 6.0), th, rng.choice([1.4, 5. / 3.])]
+                lo = [rng.uniform(0.08, 0.6), rng.uniform(0.1, 0.8), rng.uniform(2.0, 6.0), th, rng.choice([1.4, 5. / 3.])]
+                case = dict(bottom_state=hi, top_state=lo) if rng.random() < 0.5 else dict(bottom_state=lo, top_state=hi)
+            k += 1
+            try:
+                s = IGEOS_Solver(bottom_state=list(case['bottom_state']), top_state=list(case['top_state']))
+                y = np.linspace(-1.5, 1.5, 1501)
+                sol = s(np.stack([np.ones_like(y), y], axis=1), 1.0)
+                p = np.asarray(sol['pressure'], dtype=float)
+                phi = np.arctan2(np.asarray(sol['y_velocity'], dtype=float), np.asarray(sol['x_velocity'], dtype=float))
+            except Exception:
+                p = None
+            if p is not None and np.all(np.isfinite(p)) and np.all(np.isfinite(phi)):
+                res['evaluations'] += 1
+                res['distinct_nontrivial'] += 1
+                if not res['samples']:
+                    res['samples'].append(case)
+                dp = np.abs(np.diff(p)) / np.maximum(p[1:], p[:-1])
+                dphi = np.abs(np.diff(phi))
+                bad = np.where((dp < 0.02) & (dphi > 0.02))[0]
+                if len(bad) and not res['failures']:
+                    i = int(bad[0])
+                    res['failures'].append(dict(
+                        site='Riemann2D:direction-jumps-where-pressure-is-continuous',
+                        detail='at y = %.4f on x = 1 the flow direction changes by %.4f rad between neighbouring points while the '
+                               'pressure changes by %.2e relative (%d such places)' % (y[i], float(dphi[i]), float(dp[i]), len(bad)),
+                        case=case))
+            if replay is not None or (time.time() - t0 > budget and k >= 2) or k > 400:
+                break
     return res
